@@ -345,6 +345,9 @@ func (c14pcap) Run(c Case) Result {
 	if full.panicMsg != "" {
 		res.Oracle = append(res.Oracle, "C14:roundtrip\tpanic: "+full.panicMsg)
 	}
+	if full.laterBad != "" {
+		res.Oracle = append(res.Oracle, "C14:later-read-alters-earlier\t"+full.laterBad)
+	}
 	// ---- the property's hypotheses (what WritePacket enforces + caplen<=snaplen + representable values)
 	inHyp := p.snap < 1<<32 && p.lt < 65536
 	var want []pcRes
